@@ -65,8 +65,17 @@ def r1_polarity(ctx, cb):
             fv = b.val(conds[0].fnptr)
             # the condition belongs to the property being matched
             sv = cb.exp_main.on
-            same = [p for p in fv.projs if p not in ('ref', 'deref')][:-1] == \
-                   [p for p in sv.projs if p not in ('ref', 'deref')][:-1] and fv.key == sv.key
+            from taint import vals_of
+
+            def owners(v):
+                # the property a field was read from; a loop item may arrive through a join (the `Some(item)`
+                # an expanded `filter` hands on)
+                out = set()
+                for x in vals_of(b, noref(v)):
+                    x = noref(x)
+                    out.add((x.kind, repr(x.key), tuple(x.projs[:-1])))
+                return out
+            same = owners(fv) == owners(sv) and len(owners(fv)) == 1
             ctx.check(same, rule, 'condition-of-matched-property-%s' % arm, b,
                       good='the condition called is the matched property\'s own',
                       bad='%s: the %s arm calls the condition of a different property (%r vs %r)' %
@@ -122,18 +131,22 @@ def r2_all_properties(ctx, cb):
               bad='%s: the property loop does not iterate model.properties() (source %r)' % (cb.strat, src))
 
 
-def arm_table(b, sw):
+def arm_table(b, sw, edge_map=None):
     """variant -> set of facts ('call:x' / 'agg:V' / 'ret:const') occurring in blocks dominated by
-    the arm's edge"""
+    the arm's edge. edge_map: {variant: edges} when the branch is not a `match` on the value itself (a test of
+    a predicate of it whose own table is known)."""
     tab = {}
     names = set()
-    for (lab, t) in sw.edges:
-        if isinstance(lab, frozenset):
-            names |= set(lab)
-        elif isinstance(lab, str):
-            names.add(lab)
+    if edge_map is not None:
+        names = set(edge_map)
+    else:
+        for (lab, t) in sw.edges:
+            if isinstance(lab, frozenset):
+                names |= set(lab)
+            elif isinstance(lab, str):
+                names.add(lab)
     for v in sorted(names):
-        edges = sw.edges_for(v)
+        edges = edge_map[v] if edge_map is not None else sw.edges_for(v)
         facts = set()
         for blk in b.live_blocks():
             if b.blocks[blk]['cleanup']:
@@ -166,6 +179,7 @@ def r3_tables(ctx, F):
             'call:assert_any_discovery': 'call:assert_no_discovery'}
     fns = [('Expectation::discovery_is_failure', 0), ('checker::Checker::discovery_classification', 1),
            ('checker::Checker::assert_properties', 2)]
+    pred_tab = None
     for path, idx in fns:
         with ctx.rule(rule, path):
             b = F.body(path)
@@ -173,9 +187,25 @@ def r3_tables(ctx, F):
             sws = [sw for sw in b.switches if sw.kind == 'variant' and
                    any(isinstance(l, str) and l in want or isinstance(l, frozenset) and l & set(want)
                        for (l, t) in sw.edges)]
-            if len(sws) != 1:
+            if not sws and idx > 0 and pred_tab is not None:
+                # decided through the predicate whose table was just checked:
+                # `if expectation.discovery_is_failure() { .. } else { .. }`
+                pcs = b.calls_to(fns[0][0])
+                if len(pcs) != 1 or not b.branch(pcs[0], True) or not b.branch(pcs[0], False):
+                    raise AnchorMissing('%s: neither a match on Expectation nor one branch on %s' % (path, fns[0][0]))
+                emap = {}
+                for v in ('Always', 'Eventually', 'Sometimes'):
+                    t_ = pred_tab.get(v, set())
+                    if ('ret:True' in t_) == ('ret:False' in t_):
+                        raise AnchorMissing('%s: %s has no definite value for %s' % (path, fns[0][0], v))
+                    emap[v] = b.branch(pcs[0], 'ret:True' in t_)
+                tab = arm_table(b, None, emap)
+            elif len(sws) != 1:
                 raise AnchorMissing('%s: match on Expectation (found %d)' % (path, len(sws)))
-            tab = arm_table(b, sws[0])
+            else:
+                tab = arm_table(b, sws[0])
+            if idx == 0:
+                pred_tab = tab
             for v in ('Always', 'Eventually', 'Sometimes'):
                 w = want[v][idx]
                 facts = tab.get(v, set())
@@ -229,7 +259,18 @@ def sanctioned_worker_exits(F, sp):
         c_ = w.call_at(v.key) if v.kind == 'call' else None
         return c_ is not None and c_.is_(*names)
     # target.get() <= state_count.load(), in any spelling
-    tsc = edges_where(w, lambda v: src_is(v, 'NonZero::get'), lambda v: src_is(v, 'load'), 'le')
+    def unwrapped_target(v):
+        # the target may be unwrapped once in spawn(): `options.target_state_count.map(NonZeroUsize::get)`,
+        # captured as Option<usize>
+        from common import capture_origin
+        pb, pv = capture_origin(F, w, noref(v))
+        pc = pb.call_at(pv.key) if pv.kind == 'call' and pb is not w else None
+        if pc is None or not pc.is_('Option::map') or len(pc.args) != 2:
+            return False
+        if not str(pc.args[1].get('fn', '')).endswith('NonZero::<T>::get'):
+            return False
+        return noref(pb.val(pc.args[0])).fields()[-1:] == ('.target_state_count',)
+    tsc = edges_where(w, lambda v: src_is(v, 'NonZero::get') or unwrapped_target(v), lambda v: src_is(v, 'load'), 'le')
     if tsc:
         out.append(('target_state_count', tsc))
     alld = edges_where(w, lambda v: src_is(v, 'DashMap::len'), lambda v: True, 'eq')
